@@ -2209,7 +2209,10 @@ def detect_expand_template_loop(stack: list[str]) -> bool:
         for i in range(stack_len - pattern_size):
             if (stack_len - i) % pattern_size == 0:
                 pattern = stack[i : i + pattern_size]
-                if pattern[0].startswith("ARGVAL-"):
+                if pattern[0].startswith(("ARGVAL-", "ARGNAME")):
+                    # argument values and names of nested calls belong to
+                    # the caller's frame: {{t|{{t|{{t|x=1}}=1}}=1}} repeats
+                    # [ARGNAME, Template:t] without any recursion
                     continue
                 if pattern * ((stack_len - i) // pattern_size) == stack[i:]:
                     return True
